@@ -69,8 +69,23 @@ func VerifC13Deterministic() {
 func VerifC13Repeat() {
 	k, _ := c13Key("seed")
 	ctx := rt.String("ctx", 1, 3)
-	salt := rt.Bytes("salt", 0, 3)
+	orig := rt.Bytes("salt", 0, 3)
+	// the caller's salt is a prefix of a larger buffer (a field cut out of a received message) or an
+	// exactly sized slice: deriving must neither depend on nor write to the memory behind it
+	spare := rt.Choose("spareCap", 2) * 64
+	buf := make([]byte, len(orig)+spare)
+	copy(buf, orig)
+	for i := len(orig); i < len(buf); i++ {
+		buf[i] = 0xA5
+	}
+	salt := buf[:len(orig)]
 	o1, err1 := c13Derive(ctx, salt, k, 32)
+	rt.Assert("the caller's salt is unchanged", rt.BytesEq(salt, orig))
+	tailOK := true
+	for i := len(orig); i < len(buf); i++ {
+		tailOK = tailOK && buf[i] == 0xA5
+	}
+	rt.Assert("memory behind the caller's salt is unchanged", tailOK)
 	o2, err2 := c13Derive(ctx, salt, k, 32)
 	rt.Assert("same error behaviour", (err1 == nil) == (err2 == nil))
 	if err1 == nil {
